@@ -162,10 +162,16 @@ def replay(progs, preds, report, rng, n_layouts=1, contexts=("top", "fn0", "fn3"
             if pr["status"] == "unspec":
                 unspec_why[pr.get("why", "?")] = unspec_why.get(pr.get("why", "?"), 0) + 1
             continue
+        try:
+            vs = variants(p["ast"], rng, n_layouts, contexts)
+        except ValueError:
+            # the renderer has no layout for this tree (e.g. a function with a block body inside a call argument)
+            skipped["unrenderable"] = skipped.get("unrenderable", 0) + 1
+            continue
         decided += 1
         for u in pr.get("used", []):
             used_dev[u] = used_dev.get(u, 0) + 1
-        for name, src in variants(p["ast"], rng, n_layouts, contexts):
+        for name, src in vs:
             jobs.append({"id": "%s|%s" % (p["id"], name), "src": src, "limit_ms": limit_ms})
             index.append((p, pr, name))
     results = common.kv_parallel("run", jobs, flavor=flavor) if jobs else []
